@@ -23,7 +23,9 @@ ASSUMPTIONS = ["/bin/sh (POSIX shell of the sandbox) and Python's csv, json, htm
 PARTIAL = ["regex matching itself is not modelled; csv/tsv consumers are oracles, not theorems"]
 
 ALPHA = [b"a", b"Z", b"0", b" ", b"'", b"\"", b"\\", b"%", b"&", b"<", b">", b"+", b",", b"\t", b"\n", b"\r", b"\x00", b"\x7f", b"~", b"/", b"=", b";", b"$", b"`", b"!", b"*", b"?",
-         b"\xc3\xa9", b"\xe2\x82\xac", b"\xf0\x9f\x98\x80", b"\xff", b"\xc3", b"\x80", b"\xe2\x82"]
+         b"\xc3\xa9", b"\xe2\x82\xac", b"\xf0\x9f\x98\x80", b"\xff", b"\xc3", b"\x80", b"\xe2\x82",
+         # what the encoders themselves write, and pieces of it: decoding must be one pass
+         b"&lt;", b"&amp;", b"&quot;", b"&#39;", b"&gt;", b"lt;", b"amp;", b"#39;", b"%25", b"%2", b"25", b"'\\''", b"=="]
 
 
 def strings(rng, tier):
@@ -64,12 +66,23 @@ def gen(ctx):
     # regex: offsets and lengths count characters; split parts and matches reassemble the string
     texts = ["aXbXc", "ééXaé", "€€ab€", "😀a😀b", "abcabc", "", "aaa", "a\nb", "ÉéÉ", "x1y22z333", " lead and trail "]
     res = ["X", "a", "é", "[a-z]", "[0-9]+", "", "a*", ".", "é+", "(?<n>[a-z])(?<d>[0-9]+)?", "\\s+", "€|😀", "b|c", "^", "$", "x?"]
+    texts = [t.encode() for t in texts] + [b"a\x80\xc3\xa9b\xf0\x9f\x91\x8d\xe2\x82", b"\x80", b"a\xffb", b"\xc3", b"\xbf\xbfa", b"\xe2\x82a\x80"]
+    res += [".+", "a(.)", "[^b]+", "(?s:.)", "a|b"]
     for t, r in itertools.product(texts, res):
+        t = t.decode("latin-1")
         cases.append(dict(filter="[[match($re; \"g\")] as $ms | ($ms | map(. as $m | $in | .[$m.offset : $m.offset + $m.length] == $m.string) | all), "
                                  "($ms | map(.captures[]? | select(.string != null) | . as $c | $in | .[$c.offset : $c.offset + $c.length] == $c.string) | all), "
                                  "([splits($re)] as $ps | [$ms[].string] as $mm | ([range($ps | length) as $i | $ps[$i], ($mm[$i] // \"\")] | add // \"\") == $in), "
                                  "(($ms | length) + 1 == ([splits($re)] | length) or $in == \"\"), ([scan($re; \"g\")] == [$ms[].string]), (test($re) == (($ms | length) > 0))]",
-                          inputs=[S(t.encode())], vars=[("re", S(r.encode())), ("in", S(t.encode()))], kind="regex", s=t, re=r))
+                          inputs=[S(t.encode("latin-1"))], vars=[("re", S(r.encode())), ("in", S(t.encode("latin-1")))], kind="regex", s=t, re=r))
+    # a format string inside a format string is a string like any other: the outer format applies to it
+    fmts = ["@text", "@json", "@html", "@uri", "@sh", "@base64", "@base64d", "@urid", "@htmld"]
+    lits = [("<'&%", ">\\\"x"), ("a b", "$(id)"), ("", ""), ("'", "'")]
+    for F, G in itertools.product(fmts, repeat=2):
+        for (A_, D_) in (lits if tier != "quick" else lits[:2]):
+            for x in [b"it's <&> 100% \"q\"", b"a b;c|d&e", b"", b"YQ==", b"%41&amp;lt;"]:
+                prog = "[(%s \"%s\\(%s \"%s\\(.)%s\")%s\"), (\"%s\" + ((\"%s\" + (. | %s) + \"%s\") | %s) + \"%s\")] | (.[0] == .[1])" % (F, A_, G, D_, A_, D_, A_, D_, G, A_, F, D_)
+                cases.append(dict(filter="[try (%s) catch \"E\"]" % prog, inputs=[S(x)], kind="nested-format", s=x, fmts=(F, G)))
     return cases
 
 
@@ -162,6 +175,10 @@ def oracle(c, impl, model=None):
         want = urllib.parse.unquote_to_bytes(s.decode("latin-1"))
         if out[0] != ["S", want]:
             return ("percent-malformed", "@urid of %r gives %s, an independent decoder gives %r" % (s, sx.dumps(out[0])[:100], want))
+    if k == "nested-format":
+        if out[0] not in ("true", ["S", b"E"]):
+            return ("nested-format:%s in %s" % (c["fmts"][1], c["fmts"][0]), "a %s format string inside a %s format string is not formatted by the outer one on input %r" % (c["fmts"][1], c["fmts"][0], s))
+        return None
     if k == "regex":
         names = ["match offsets/lengths", "capture offsets/lengths", "splits+matches reassemble", "split count", "scan", "test"]
         for i, n in enumerate(names):
